@@ -61,6 +61,16 @@ CHECKS = {
              "__enter__, __exit__), singly and in pairs; TLC validates clause order, finally-exactly-once, the escaping "
              "exception, the form's value and outer variables against HyCore.",
         note="break/continue/return inside finally, except*, empty else/finally are not generated."),
+    "C11": dict(
+        engine="collect", level="model_checking", design="5.2, 6/C11",
+        technique="TLC enumerates (context, element sequence) programs of HyCollect with the Python construct each element "
+                  "must become (or none: compilation has to fail); each is compiled and run, the compiled AST is searched for "
+                  "every uniquely numbered leaf and the run-time effect log compared",
+        text="25 contexts (list / tuple / set / dict displays, call, method call, dotted call, get, cut, +, and, <=, class "
+             "bases, decorators, except types, if / with / return / assert / raise / setv value / not / f-string field / "
+             "lfor iterable / while test) x all sequences of up to 3 (thorough 4) elements over plain, #*, #**, keyword+value.",
+        note="Exception types of failed compilations are C10's subject; here any compile-time failure counts as not silent. "
+             "Cells the documentation does not decide (e.g. (and #* xs)) accept either a construct or an error, never a drop."),
     "C12": dict(
         engine="riders", level="model_checking", design="5.10, 6/C12",
         technique="static scan of every compiled AST for non-reserved introduced identifiers + get_anon_var stream "
